@@ -334,6 +334,10 @@ def r5_interning(rep, ctx):
             rep.ok("C07.R5", key, "returns a cache hit", node=st, fn=fn)
         elif isinstance(v, ast.Name) and v.id not in stored_names and all(cache_hit_term(x) for x in alternatives(res.term(v))):
             rep.ok("C07.R5", key, "returns a cache hit", node=st, fn=fn)
+        elif isinstance(v, ast.Name) and v.id not in stored_names and all(
+                (st_ is not None and any(st_ is s2 for lst in stored_names.values() for s2 in lst)) or cache_hit_term(t_) for st_, t_ in res.origins(v)):
+            # a copy of a name assigned by a caching statement (result variable of an extracted helper)
+            rep.ok("C07.R5", key, "returns the object that was just stored in the intern table", node=st, fn=fn)
         elif isinstance(v, ast.Name) and v.id in stored_names:
             # the reaching definitions of the name at this return are all caching assignments
             t = res.term(v)
